@@ -572,7 +572,7 @@ struct TemplateCore {
                         break;
                     }
 
-                    if (match != 0) {
+                    if (match == TagPatterns::LineEndID) { // Another tag or the end of the template before '}': not a math tag.
                         MathTag *tag   = (storage->Insert(TagBit{})).MakeMathTag();
                         tag->Offset    = (offset - TagPatterns::MathPrefixLength);
                         tag->EndOffset = end_offset;
